@@ -367,6 +367,8 @@ def run_queue(ctx, replay, pid, mine, dims, opts):
             if nb["cfg"]["partial"] and all(h.get("res", "ok") == "ok" for h in nb["hist"] if h["a"] == "TStart") \
                     and k % 3 != 2:
                 nb["cfg"]["fwd"] = "remote"
+                # every fourth of those: the domains publish a wildcard MTA-STS policy and the MX is an A-label host
+                nb["cfg"]["sts"] = ["wild", "", "nil", ""][k % 4]
             rb.append(nb)
             by_id[nb["id"]] = nb
             real_ids.add(nb["id"])
